@@ -45,12 +45,12 @@ theorem regNum_base (rb : BitVec 32) (hb : rb < 16#32) (B : Bool) (hB : B = rb.g
 /-- the memory check of the monitor on a parse whose ModRM / SIB / displacement are the parts of `[base64 + disp]` -/
 theorem memParts_checkMem (ctx : Spec.X86.Ctx) (rule : Rule) (p : Parsed) (opReg7 rb s : BitVec 32) (size : Nat) (d : BitVec 64)
     (hm64 : ctx.mode64 = true) (ho : opReg7 < 8#32) (hb : rb < 16#32) (hs6 : s ≤ 6#32)
-    (seg : Nat) (pfx : List (BitVec 8)) (h67 : pfx.contains 0x67#8 = false)
+    (seg : Nat) (a32 : Bool) (pfx : List (BitVec 8)) (h67 : pfx.contains 0x67#8 = a32)
     (F : MemFields p pfx (memHead opReg7 (rb &&& 7#32) (memVariant (rb &&& 7#32) (d.truncate 32) s)).1
            (memHead opReg7 (rb &&& 7#32) (memVariant (rb &&& 7#32) (d.truncate 32) s)).2
            (memDisp (d.truncate 32) s (memVariant (rb &&& 7#32) (d.truncate 32) s)) (rb.getLsbD 3) false)
     (hN : (if p.vexKind == 4 then disp8N rule p else 1) = 2 ^ s.toNat) :
-    checkMem ctx rule p (memOpBase size rb d seg) = .ok () := by
+    checkMem ctx rule p (memOpBase size rb d seg a32) = .ok () := by
   obtain ⟨hpm, hps, hpd, hpv, hpp, hpa, hpB, hpX⟩ := F
   have hr7 : rb &&& 7#32 < 8#32 := by bv_decide
   have hvlt := memVariant_lt (rb &&& 7#32) (d.truncate 32) s
@@ -70,7 +70,7 @@ theorem memParts_checkMem (ctx : Spec.X86.Ctx) (rule : Rule) (p : Parsed) (opReg
     intro h0 h5
     rw [fmod] at h0
     exact hv5 h0 (by apply BitVec.eq_of_toNat_eq; simpa using h5)
-  apply checkMem_base64 ctx rule p (memOpBase size rb d seg) hd.1 hm64 (by rw [hpp]; exact h67) hpa hpm hmodne rfl rfl
+  apply checkMem_base64 ctx rule p (memOpBase size rb d seg a32) hd.1 a32 hm64 (by rw [hpp]; exact h67) hpa hpm hmodne rfl rfl
   · obtain ⟨mb, sb⟩ := hd
     cases sb with
     | none =>
@@ -90,7 +90,7 @@ theorem memParts_checkMem (ctx : Spec.X86.Ctx) (rule : Rule) (p : Parsed) (opReg
         rw [fb1]; exact hbaseNum
       · rw [hpX, fb2]; rfl
   · simp only [decodedDisp, hpd, hpv]
-    have : (memOpBase size rb d seg).disp.toNat % 2 ^ 32 = (d.truncate 32 : BitVec 32).toNat := by simp [memOpBase, BitVec.toNat_setWidth]
+    have : (memOpBase size rb d seg a32).disp.toNat % 2 ^ 32 = (d.truncate 32 : BitVec 32).toNat := by simp [memOpBase, BitVec.toNat_setWidth]
     rw [this, hN]
     exact hmd
 
@@ -113,11 +113,11 @@ theorem evexWord_forced (x opcode : BitVec 32) : evexWord (x ||| 0x80000000#32) 
 
 /-- `EmitVexEvexM` on `[base64 + disp]`: the complete output in its branches. EVEX is chosen when the instruction has no VEX form
 (`vexFlag = false`, the "forced EVEX" bit 31 of `x`) or when a register / the opcode word needs it. -/
-theorem emitVexEvexM_base_bytes (c : Model.X86.Ctx) (opcode reg vvvvv rb : BitVec 32) (size : Nat) (d imm : BitVec 64) (n : Nat) (seg : Nat)
+theorem emitVexEvexM_base_bytes (c : Model.X86.Ctx) (opcode reg vvvvv rb : BitVec 32) (size : Nat) (d imm : BitVec 64) (n : Nat) (seg : Nat) (a32 : Bool)
     (hm : c.mode64 = true) (hpe : c.preferEvex = false) (hk : c.extraId = 0#32) (hvs : c.vsib = false) (hts : c.tsib = false)
     (hr : reg < 32#32) (hv : vvvvv < 32#32) (hb : rb < 16#32) (hxop : opcode &&& 0x800#32 = 0#32) :
-    emitVexEvexM c opcode 0#32 (reg + (vvvvv <<< 7)) (memBase size rb d seg) imm n =
-      .ok (segmentPrefix seg ++ ((if c.vexFlag = false ∨ xR opcode 0#32 reg vvvvv rb 0#32 &&& 0x00D78150#32 ≠ 0#32 then
+    emitVexEvexM c opcode 0#32 (reg + (vvvvv <<< 7)) (memBase size rb d seg a32) imm n =
+      .ok ((segmentPrefix seg ++ aoBytes a32) ++ ((if c.vexFlag = false ∨ xR opcode 0#32 reg vvvvv rb 0#32 &&& 0x00D78150#32 ≠ 0#32 then
               le32 (evexWord (xR opcode 0#32 reg vvvvv rb 0#32) opcode) ++ [opcode.truncate 8] ++
                 (memMb ((reg + (vvvvv <<< 7)) &&& 7#32) rb (d.truncate 32) (cdShiftOf (evexCdOpcodeOf opcode)) ::
                   ((memSib ((reg + (vvvvv <<< 7)) &&& 7#32) rb (d.truncate 32) (cdShiftOf (evexCdOpcodeOf opcode))).toList ++
@@ -136,10 +136,10 @@ theorem emitVexEvexM_base_bytes (c : Model.X86.Ctx) (opcode reg vvvvv rb : BitVe
       (vexPrep (xR opcode 0#32 reg vvvvv rb 0#32) opcode 0#32 &&& 0x8000803E#32 ≠ 0#32) := by
     simp only [vexPrep, xR, extractLLMMMMM, kLL_Mask, kMM_Mask, oEvex, oVex3]
     constructor <;> intro h <;> bv_decide
-  have hoff : (memBase size rb d seg).offLo32 = d.truncate 32 := rfl
+  have hoff : (memBase size rb d seg a32).offLo32 = d.truncate 32 := rfl
   have hcd := evexCdOpcode_eq opcode reg vvvvv rb hr hv hb hxop
   simp only [evexCdOpcode] at hcd
-  rw [emitVexEvexM_base_eq c opcode reg vvvvv rb size d imm n seg hm hpe hk hvs]
+  rw [emitVexEvexM_base_eq c opcode reg vvvvv rb size d imm n seg a32 hm hpe hk hvs]
   cases hvf : c.vexFlag
   · -- forced EVEX
     have hx20 : (xMb opcode reg vvvvv rb ||| 0x80000000#32) &&& 0x00180040#32 = 0#32 := by
@@ -148,7 +148,7 @@ theorem emitVexEvexM_base_bytes (c : Model.X86.Ctx) (opcode reg vvvvv rb : BitVe
     simp only [Bool.false_eq_true, ↓reduceIte, true_or]
     rw [vexEvexMPrefix_nobcst c _ opcode _ hx20, if_pos hne, evexWord_forced, xMb_eq_xR opcode reg vvvvv rb hb]
     simp only []
-    rw [emitModSib_base_parts c _ _ _ 0#32 _ rb 0#32 0x0D#32 (memBase size rb d seg) imm n hts (by decide) (by decide), hoff, hcd]
+    rw [emitModSib_base_parts c _ _ _ 0#32 _ rb 0#32 (rmInfoBase a32) (memBase size rb d seg a32) imm n hts (by cases a32 <;> decide) (by cases a32 <;> decide), hoff, hcd]
     simp [memMb, memSib, memDs]
   · have hx20 : xMb opcode reg vvvvv rb &&& 0x00180040#32 = 0#32 := by simp only [xMb, extractLLMMMMM, kLL_Mask, kMM_Mask, oEvex]; bv_decide
     have hc : (xMb opcode reg vvvvv rb &&& 0x80D78150#32 ≠ 0#32) ↔ (xMb opcode reg vvvvv rb &&& 0x00D78150#32 ≠ 0#32) := by
@@ -160,19 +160,19 @@ theorem emitVexEvexM_base_bytes (c : Model.X86.Ctx) (opcode reg vvvvv rb : BitVe
       rw [xMb_eq_xR opcode reg vvvvv rb hb] at hev ⊢
       rw [if_pos hev]
       simp only []
-      rw [emitModSib_base_parts c _ _ _ 0#32 _ rb 0#32 0x0D#32 (memBase size rb d seg) imm n hts (by decide) (by decide), hoff, hcd]
+      rw [emitModSib_base_parts c _ _ _ 0#32 _ rb 0#32 (rmInfoBase a32) (memBase size rb d seg a32) imm n hts (by cases a32 <;> decide) (by cases a32 <;> decide), hoff, hcd]
       simp [memMb, memSib, memDs]
     · rw [if_neg (fun h => hev (hc.mp h))]
       rw [xMb_eq_xR opcode reg vvvvv rb hb] at hev ⊢
       rw [if_neg hev]
       by_cases hv3 : vexPrep (xR opcode 0#32 reg vvvvv rb 0#32) opcode 0#32 &&& 0x8000803E#32 ≠ 0#32
       · simp only [if_pos hv3, if_pos (h3.mpr hv3)]
-        rw [emitModSib_base_parts c _ _ _ 0#32 _ rb 0#32 0x0D#32 (memBase size rb d seg) imm n hts (by decide) (by decide), hoff, cdShift_cleared,
+        rw [emitModSib_base_parts c _ _ _ 0#32 _ rb 0#32 (rmInfoBase a32) (memBase size rb d seg a32) imm n hts (by cases a32 <;> decide) (by cases a32 <;> decide), hoff, cdShift_cleared,
           vex3Word_masked]
         simp [memMb, memSib, memDs]
       · have hv3' : ¬ (vexPrep (xR opcode 0#32 reg vvvvv rb 0#32) opcode 0#32 &&& 0x8000807E#32 ≠ 0#32) := fun h => hv3 (h3.mp h)
         simp only [if_neg hv3, if_neg hv3']
-        rw [emitModSib_base_parts c _ _ _ 0#32 _ rb 0#32 0x0D#32 (memBase size rb d seg) imm n hts (by decide) (by decide), hoff, cdShift_cleared]
+        rw [emitModSib_base_parts c _ _ _ 0#32 _ rb 0#32 (rmInfoBase a32) (memBase size rb d seg a32) imm n hts (by cases a32 <;> decide) (by cases a32 <;> decide), hoff, cdShift_cleared]
         simp [memMb, memSib, memDs]
 
 
@@ -209,38 +209,44 @@ structure AddrForm (c : Model.X86.Ctx) (ctx : Spec.X86.Ctx) (m : Mem) (mo : MemO
                   ((sib ((reg + (vvvvv <<< 7)) &&& 7#32) 0#32).toList ++ ds ((reg + (vvvvv <<< 7)) &&& 7#32) 0#32))) ++
            emitImmediate imm n))
 
-/-- the segment-override bytes the encoder writes are a legal prefix list and exactly the ones the monitor wants for a 64-bit-addressed operand -/
-theorem segPfx_ok (seg : Nat) (mo : MemOp) (hseg : mo.seg = seg) (hwa : wantedAddrSize true mo = 64) :
-    PfxList false (segmentPrefix seg) ∧ PfxCounts (segmentPrefix seg) mo ∧ (segmentPrefix seg).contains 0x67#8 = false := by
+/-- the segment-override and address-size bytes the encoder writes are a legal prefix list and exactly the ones the monitor wants for an operand
+addressed with 64-bit (or, `a32`, 32-bit) registers -/
+theorem segPfx_ok (seg : Nat) (a32 : Bool) (mo : MemOp) (hseg : mo.seg = seg) (hwa : wantedAddrSize true mo = (if a32 then 32 else 64)) :
+    PfxList false (segmentPrefix seg ++ aoBytes a32) ∧ PfxCounts (segmentPrefix seg ++ aoBytes a32) mo ∧
+    (segmentPrefix seg ++ aoBytes a32).contains 0x67#8 = a32 := by
   have hc : seg = 0 ∨ seg = 1 ∨ seg = 2 ∨ seg = 3 ∨ seg = 4 ∨ seg = 5 ∨ seg = 6 ∨ 7 ≤ seg := by omega
-  have key : ∀ s : Nat, (s = 0 ∨ s = 1 ∨ s = 2 ∨ s = 3 ∨ s = 4 ∨ s = 5 ∨ s = 6 ∨ 7 ≤ s) →
-      PfxList false (segmentPrefix s) ∧ (segmentPrefix s).count 0x66#8 = 0 ∧ (segmentPrefix s).count 0xF3#8 = 0 ∧ (segmentPrefix s).count 0xF2#8 = 0 ∧
-      (segmentPrefix s).count 0xF0#8 = 0 ∧ (segmentPrefix s).count 0x9B#8 = 0 ∧
-      (segmentPrefix s).filter isSegByte = (match segPrefix s with | some b => [b] | Option.none => []) ∧
-      (segmentPrefix s).count 0x67#8 ≤ 1 ∧ (segmentPrefix s).contains 0x67#8 = false := by
-    intro s hs
+  have key : ∀ s : Nat, ∀ a : Bool, (s = 0 ∨ s = 1 ∨ s = 2 ∨ s = 3 ∨ s = 4 ∨ s = 5 ∨ s = 6 ∨ 7 ≤ s) →
+      PfxList false (segmentPrefix s ++ aoBytes a) ∧ (segmentPrefix s ++ aoBytes a).count 0x66#8 = 0 ∧ (segmentPrefix s ++ aoBytes a).count 0xF3#8 = 0 ∧
+      (segmentPrefix s ++ aoBytes a).count 0xF2#8 = 0 ∧
+      (segmentPrefix s ++ aoBytes a).count 0xF0#8 = 0 ∧ (segmentPrefix s ++ aoBytes a).count 0x9B#8 = 0 ∧
+      (segmentPrefix s ++ aoBytes a).filter isSegByte = (match segPrefix s with | some b => [b] | Option.none => []) ∧
+      (segmentPrefix s ++ aoBytes a).count 0x67#8 ≤ 1 ∧ (segmentPrefix s ++ aoBytes a).contains 0x67#8 = a := by
+    intro s a hs
     rcases hs with h | h | h | h | h | h | h | h
-    iterate 7 (subst h; refine ⟨?_, by decide⟩; first | exact Or.inl rfl | exact Or.inr (Or.inl ⟨_, rfl, by decide⟩))
+    iterate 7 (subst h; cases a <;> (refine ⟨?_, by decide⟩; first | exact Or.inl rfl | exact Or.inr (Or.inl ⟨_, rfl, by decide⟩) | exact Or.inr (Or.inr ⟨_, _, rfl, by decide, by decide⟩)))
     obtain ⟨k, rfl⟩ : ∃ k, s = k + 7 := ⟨s - 7, by omega⟩
-    refine ⟨Or.inl rfl, ?_⟩
-    simp [segmentPrefix, segPrefix]
-  obtain ⟨a, c66, cF3, cF2, cF0, c9B, cseg, c67, cc⟩ := key seg hc
-  exact ⟨a, ⟨c66, cF3, cF2, cF0, c9B, by rw [hseg]; exact cseg, c67, by rw [cc, hwa]; rfl⟩, cc⟩
+    cases a
+    · refine ⟨Or.inl rfl, ?_⟩
+      simp [segmentPrefix, segPrefix, aoBytes]
+    · refine ⟨Or.inr (Or.inl ⟨_, rfl, by decide⟩), ?_⟩
+      simp [segmentPrefix, segPrefix, aoBytes, isSegByte]
+  obtain ⟨a, c66, cF3, cF2, cF0, c9B, cseg, c67, cc⟩ := key seg a32 hc
+  exact ⟨a, ⟨c66, cF3, cF2, cF0, c9B, by rw [hseg]; exact cseg, c67, by rw [cc, hwa]; cases a32 <;> rfl⟩, cc⟩
 
-/-- the address form `seg:[base64 + disp]`: ALL base registers 0..15, ALL displacements, ANY segment override -/
-theorem addrForm_base (c : Model.X86.Ctx) (ctx : Spec.X86.Ctx) (rb : BitVec 32) (size : Nat) (d : BitVec 64) (seg : Nat)
+/-- the address form `seg:[base + disp]`: ALL base registers 0..15 (64-bit, or - `a32` - 32-bit with a 67 prefix), ALL displacements, ANY segment override -/
+theorem addrForm_base (c : Model.X86.Ctx) (ctx : Spec.X86.Ctx) (rb : BitVec 32) (size : Nat) (d : BitVec 64) (seg : Nat) (a32 : Bool)
     (hm : c.mode64 = true) (hpe : c.preferEvex = false) (hk : c.extraId = 0#32) (hvs : c.vsib = false) (hts : c.tsib = false)
     (hm64 : ctx.mode64 = true) (hb : rb < 16#32) :
-    AddrForm c ctx (memBase size rb d seg) (memOpBase size rb d seg) (segmentPrefix seg) rb
+    AddrForm c ctx (memBase size rb d seg a32) (memOpBase size rb d seg a32) (segmentPrefix seg ++ aoBytes a32) rb
       (fun o7 s => memMb o7 rb (d.truncate 32) s) (fun o7 s => memSib o7 rb (d.truncate 32) s) (fun _ s => memDs rb (d.truncate 32) s) := by
-  obtain ⟨hpl, hpc, h67⟩ := segPfx_ok seg (memOpBase size rb d seg) rfl rfl
+  obtain ⟨hpl, hpc, h67⟩ := segPfx_ok seg a32 (memOpBase size rb d seg a32) rfl (by cases a32 <;> rfl)
   refine ⟨by bv_decide, hpl, hpc, rfl, rfl, ?_, ?_, ?_⟩
   · intro o7 s ho
     exact memParts_shape o7 rb (d.truncate 32) s ho
   · intro rule p o7 s ho hs6 F hN
     have hx4 : rb.getLsbD 4 = false := by bv_decide
     rw [hx4] at F
-    exact memParts_checkMem ctx rule p o7 rb s size d hm64 ho hb hs6 seg _ h67 F hN
+    exact memParts_checkMem ctx rule p o7 rb s size d hm64 ho hb hs6 seg a32 _ h67 F hN
   · intro opcode reg vvvvv imm n hr hv hxop
     have hc1 : (xR opcode 0#32 reg vvvvv rb 0#32 &&& 0x00D78110#32 ≠ 0#32) ↔ (xR opcode 0#32 reg vvvvv rb 0#32 &&& 0x00D78150#32 ≠ 0#32) := by
       simp only [xR, extractLLMMMMM, kLL_Mask, kMM_Mask, oEvex]
@@ -249,7 +255,7 @@ theorem addrForm_base (c : Model.X86.Ctx) (ctx : Spec.X86.Ctx) (rb : BitVec 32) 
         (vexPrep (xR opcode 0#32 reg vvvvv rb 0#32) opcode 0#32 &&& 0x8000803E#32 ≠ 0#32) := by
       simp only [vexPrep, xR, extractLLMMMMM, kLL_Mask, kMM_Mask, oEvex, oVex3]
       constructor <;> intro h <;> bv_decide
-    rw [emitVexEvexM_base_bytes c opcode reg vvvvv rb size d imm n seg hm hpe hk hvs hts hr hv hb hxop]
+    rw [emitVexEvexM_base_bytes c opcode reg vvvvv rb size d imm n seg a32 hm hpe hk hvs hts hr hv hb hxop]
     simp only [hc1, hc3]
 
 /-! ### compositions: shape × prefix kind, generic in the address form -/
